@@ -12,10 +12,11 @@ from .tags import HASH_MODES, KEY_TAGS
 
 
 class Shadow:
-    __slots__ = ("cols", "eng", "pending", "nrows", "mat", "multi")
+    __slots__ = ("cols", "eng", "pending", "nrows", "mat", "multi", "hidden")
 
-    def __init__(self, cols, eng, pending=False, nrows=3, mat=False, multi=False):
+    def __init__(self, cols, eng, pending=False, nrows=3, mat=False, multi=False, hidden=()):
         self.cols = set(cols)
+        self.hidden = set(hidden)
         self.eng = eng
         self.pending = pending
         self.nrows = nrows
@@ -23,7 +24,7 @@ class Shadow:
         self.multi = multi
 
     def copy(self, **kw):
-        s = Shadow(self.cols, self.eng, self.pending, self.nrows, self.mat, self.multi)
+        s = Shadow(self.cols, self.eng, self.pending, self.nrows, self.mat, self.multi, self.hidden)
         for k, v in kw.items():
             setattr(s, k, v)
         return s
@@ -56,6 +57,7 @@ class Gen:
         self.ill_flags_p = ill_flags_p
         self.force_last = False
         self.last_kind = None
+        self.preds = []
         self.pool: list[Shadow] = []
         self.ops: list[dict] = []
         self.nmat = 0
@@ -82,14 +84,51 @@ class Gen:
 
     def pred(self, cols, depth=2):
         r = self.rng
+        if depth == 2:
+            # sometimes re-use an earlier predicate verbatim (users share predicate objects between calls)
+            old = [p for p in self.preds if self._pcols(p) <= set(cols)]
+            if old and r.random() < 0.15:
+                return r.choice(old)
+            p = self._pred(cols, depth)
+            if r.random() < 0.12:
+                p = self._trivial_wrap(p)
+            self.preds.append(p)
+            if len(self.preds) > 12:
+                self.preds.pop(0)
+            return p
+        return self._pred(cols, depth)
+
+    @staticmethod
+    def _pcols(p):
+        from .exprs import pred_cols
+
+        return pred_cols(p)
+
+    def _trivial_wrap(self, p):
+        """Wrap p with operands that are trivially true / false without being plain literals at top level."""
+        r = self.rng
+        t_true = r.choice([["or", self._pred([], 0), ["plit", True]], ["not", ["plit", False]], ["or", ["plit", True]],
+                           ["and"], ["not", ["and", ["plit", False]]]])
+        t_false = r.choice([["and", self._pred([], 0), ["plit", False]], ["not", ["plit", True]], ["or"], ["plit", False]])
+        k = r.random()
+        if k < 0.45:
+            return ["and", p, t_true] if r.random() < 0.7 else ["and", t_true, p]
+        if k < 0.7:
+            return ["or", p, t_false] if r.random() < 0.7 else ["or", t_false, p]
+        if k < 0.85:
+            return ["and", p, t_false] if r.random() < 0.5 else ["and", t_false, p]
+        return ["or", t_true, p]
+
+    def _pred(self, cols, depth=2):
+        r = self.rng
         k = r.random()
         if depth <= 0 or k < 0.45:
             return ["cmp", r.choice(["eq", "ne", "lt", "le", "gt", "ge"]), self.expr(cols, 1, bool(cols)), self.expr(cols, 1)]
         if k < 0.6:
             n = r.choice([0, 1, 2, 2, 3])
-            return [r.choice(["and", "or"])] + [self.pred(cols, depth - 1) for _ in range(n)]
+            return [r.choice(["and", "or"])] + [self._pred(cols, depth - 1) for _ in range(n)]
         if k < 0.7:
-            return ["not", self.pred(cols, depth - 1)]
+            return ["not", self._pred(cols, depth - 1)]
         if k < 0.76:
             return ["plit", r.random() < 0.6]
         if k < 0.9:
@@ -231,6 +270,9 @@ class Gen:
         free = [t for t in ["x", "y", "z", "w"] if t not in sh.cols]
         if self.hidden_p and self.rng.random() < self.hidden_p:
             free = [t for t in KEY_TAGS if t not in sh.cols] or free
+        hid = sorted(t for t in sh.hidden if t not in sh.cols)
+        if hid and self.rng.random() < 0.35:
+            free = hid          # re-use the tag of a column that an upstream projection removed
         if not free:
             return
         tag = self.rng.choice(free)
@@ -254,7 +296,7 @@ class Gen:
             keep.add("b")
         fl = self.flags(sh)
         self.ops.append({"k": "proj", "t": i, "cols": sorted(keep), **fl})
-        self.pool.append(sh.copy(cols=keep, eng=self._after_flags(sh, fl)))
+        self.pool.append(sh.copy(cols=keep, eng=self._after_flags(sh, fl), hidden=sh.hidden | (sh.cols - keep)))
 
     def g_sel(self):
         i = self.pick()
@@ -348,6 +390,8 @@ class Gen:
             if r.random() < 0.6:
                 fl["tr"] = True
         p = self.pred(l.cols | rr.cols, 1) if r.random() < 0.4 else None
+        if r.random() < 0.2:
+            fl["cc"] = True       # Join(pred, min_columns=max_columns=<shared key columns>).partial(rhs).apply(lhs)
         self.ops.append({"k": "join", "l": i, "r": j, "p": p, **fl})
         self.pool.append(Shadow(l.cols | rr.cols, rr.eng))
 
@@ -372,9 +416,9 @@ class Gen:
         self.pool.append(sh.copy(eng=to, pending=False, multi=True))
 
     def g_run(self):
-        i = self.pick()
-        if i is None:
+        if not self.pool:
             return
+        i = self.rng.randrange(len(self.pool)) if self.rng.random() < 0.6 else self.pick()
         self.ops.append({"k": "run", "t": i})
 
     def g_process(self):
@@ -534,6 +578,9 @@ class Gen:
             if r.random() < 0.6 and missing:
                 base["p"] = ["cmp", "eq", ["ref", r.choice(missing)], ["lit", 0]]
                 edit = "missing"
+            elif r.random() < 0.4 and missing:
+                base["cc"] = sorted((tgt.cols & rr.cols & set(KEY_TAGS)) | {r.choice(missing)})
+                edit = "common"
             elif tgt.eng != rr.eng:
                 base["bt"] = False
                 base["tr"] = False
